@@ -634,6 +634,7 @@ func TestC26(t *testing.T) {
 	}
 
 	var repeated, emittedStalled int64
+	dropRun := make([]bool, len(specs))
 	outs := make([]outcome, len(specs))
 	errs := make([]error, len(specs))
 	sem := make(chan struct{}, 8)
@@ -667,8 +668,9 @@ func TestC26(t *testing.T) {
 				if stall < stallLimit {
 					return
 				}
-				if attempt >= 2 {
+				if attempt >= 3 {
 					atomic.AddInt64(&emittedStalled, 1)
+					dropRun[idx] = true
 					return
 				}
 				atomic.AddInt64(&repeated, 1)
@@ -681,9 +683,15 @@ func TestC26(t *testing.T) {
 		r.Count("etcd_schedules_repeated_after_stall")
 	}
 	for k := int64(0); k < emittedStalled; k++ {
-		r.Count("etcd_schedules_emitted_although_stalled")
+		r.Count("etcd_schedules_dropped_stalled")
+	}
+	if emittedStalled*2 > int64(len(specs)) {
+		t.Fatalf("more than half of the schedules were dropped because the embedded cluster stalled")
 	}
 	for idx, o := range outs {
+		if dropRun[idx] {
+			continue
+		}
 		if errs[idx] != nil {
 			t.Fatalf("schedule %d: backend setup failed: %v", idx, errs[idx])
 		}
@@ -716,5 +724,5 @@ func TestC26(t *testing.T) {
 		tags := map[string]any{"backend": o.b.name(), "lapse_while_registered": lwr}
 		r.Add(term, desc, tags, lwr || exists)
 	}
-	r.Finish("per backend (real StartEphemeral on embedded etcd with heartbeat 300 ms / miniredis with heartbeats 300 ms / 1 s / 1.2 s by schedule index; an etcd schedule during which an independent probe saw a stall >= 400 ms is repeated up to twice): a corpus of 4 schedules (register-tick-stop; a rejected second registrant that registers after the first stopped; the redis witness lapse-takeover-stop; lapse with nobody taking over), then adaptive random schedules of 8-15 macro operations over 2 or 3 registrants (MReg 35%, MTickAll 30%, MLapse 15%, MStop 20% among the operations legal in the harness view), closed by a Stop of every still-active registrant; non-trivial = a lapse while somebody is registered, or a registration rejected with ErrKeyExists")
+	r.Finish("per backend (real StartEphemeral on embedded etcd with heartbeat 300 ms / miniredis with heartbeats 300 ms / 1 s / 1.2 s by schedule index; an etcd schedule during which an independent probe saw a stall >= 400 ms is repeated up to three times, then dropped): a corpus of 4 schedules (register-tick-stop; a rejected second registrant that registers after the first stopped; the redis witness lapse-takeover-stop; lapse with nobody taking over), then adaptive random schedules of 8-15 macro operations over 2 or 3 registrants (MReg 35%, MTickAll 30%, MLapse 15%, MStop 20% among the operations legal in the harness view), closed by a Stop of every still-active registrant; non-trivial = a lapse while somebody is registered, or a registration rejected with ErrKeyExists")
 }
